@@ -148,6 +148,10 @@ def check(ctx):
             m2["l%d" % i] = {"p.go": "package l%d\n\n%sfunc Broken() uint64 {\n\treturn undefined%d\n}\n" % (i, filler, i)}
         for i in range(3):
             m2["c%d" % i] = gen_pkg(rnd, "c%d" % i, 100 + i, True)
+        # error messages that print a type, a key or an expression of the source must print the SOURCE (not an address or a position in
+        # the file set, which change from run to run and with the set of co-translated packages)
+        m2["k0"] = {"p.go": "package k0\n\nfunc KeyArray() map[[2]byte]uint64 {\n\treturn nil\n}\n\nfunc KeyPtr() map[*uint64]uint64 {\n\treturn nil\n}\n\n"
+                            "type R struct {\n\tf map[[3]uint64]bool\n}\n\nfunc Chan(c chan uint64) {\n\tc <- 1\n}\n\nfunc Sel(a [4]uint64) uint64 {\n\treturn a[1]\n}\n"}
         root2 = os.path.join(scratch, "m2")
         gomod.write_module(root2, m2)
         first = None
